@@ -281,7 +281,9 @@ def run (c : Case) : CaseOut := Id.run do
   if c.ops.map (·.1) == [["failexec"]] then
     let io := c.ops.flatMap (·.2)
     let leak := io.any fun l => l.head? == some "goroutines-left"
-    return { obs := [[["execute", "error"]]], tags := ["execute-fails-after-build"],
+    let retry := c.cfg.any fun l => l == ["retry", "1"]
+    return { obs := [[["execute", "error"]] ++ (if retry then [["retry", "ok"]] else [])],
+             tags := ["execute-fails-after-build"] ++ (if retry then ["execute-retried-after-failure"] else []),
              spec := if leak then "fail:engine-goroutine-still-running-after-stop(execute-failed)" else "ok" }
   -- `exotic`: ordinary rows, rows whose values have unusual Go types, ordinary rows again, then Stop: the engine keeps
   -- working (later rows reach the sink, a table write returns), no call panics, Stop returns and leaves nothing running
